@@ -23,7 +23,7 @@ DRIVER = "C17"
 RULE = ("validate correspondence: per op family (axis, merge_chunks, squeeze, repeat, concat, stack, region store, qr, "
         "reduction, broadcast_to, roll, permute_dims, map_blocks, index, scan) parameter tuples with rank 1-3, dims 1-9, "
         "chunk 1..dim, about half deliberately invalid (axis out of range, mismatched shapes / chunk sizes, non-dividing "
-        "merge, misaligned or mis-sized regions, negative / zero / non-int repeats, bad drop_axis, unsupported index kinds); "
+        "merge, misaligned / stepped / mis-sized regions and stores of another shape, negative / zero / non-int repeats, bad drop_axis, unsupported index kinds); "
         "key correspondence: every out block of partial_reduce / repeat / concat / region store / scan / stack instances; "
         "oracle: exprgen programs (all families, depth<=4, <=3 inputs) under 2 executors x 4 optimizer settings plus "
         "family-specific edge streams; non-trivial = more than one block or an invalid parameter; distinct by case text")
@@ -688,13 +688,15 @@ def corr_keys(ctx, n):
                     got = []
                     for m in op.pipeline.mappable:
                         bi = int(list(m)[0])
-                        ks = [co[0] for nm, co in flat_keys(f(ChunkKey("out", (bi,)))) if nm == src.name]
-                        # is the designated source block there and of the shape the write expects ?
-                        lo = min(p["start"] or 0, p["tgtLen"])
-                        hi = max(lo, min(p["tgtLen"] if p["stop"] is None else p["stop"], p["tgtLen"]))
-                        sel = [q for q in range(lo, hi, p["step"] or 1) if q // p["tgtChunk"] == bi]
-                        kk = ks[0]
-                        okk = 0 <= kk < src.numblocks[0] and min(p["srcChunk"], p["srcLen"] - kk * p["srcChunk"]) == len(sel)
+                        (nm, co), = flat_keys(f(ChunkKey("out", (bi,))))
+                        # is the designated source block there and of the shape the write expects ?  (the source may
+                        # have been rechunked by store: look at the array the op really reads)
+                        real = op.pipeline.config.reads_map[nm].array
+                        rn, rc = int(real.shape[0]), int(real.chunks[0])
+                        lo, hi, _ = slice(p["start"], p["stop"], p["step"]).indices(p["tgtLen"])
+                        sel = [q for q in range(lo, hi) if q // p["tgtChunk"] == bi]
+                        kk = co[0]
+                        okk = 0 <= kk < nblocks(rn, rc) and min(rc, rn - kk * rc) == len(sel)
                         got.append("%d:%d:%s" % (bi, kk, "ok" if okk else "bad"))
                     add(region_req("regionkeys", p), " ".join(got), p, kind="keys:region")
                 elif fam == "scan":
@@ -963,7 +965,7 @@ def classify(build, config, phase, e, params=None):
     if qual == "clip" and isinstance(e2, TypeError) and "a_max" in msg2 and len(cfg.num_input_blocks) == 2:
         return "clip-min-only"
     if isinstance(e2, ValueError) and any(w in msg2 for w in ("broadcast", "shape-mismatch", "mismatch in its core dimension")) \
-            and qual not in ("_read_stack_chunk", "qr", "_store_array.<locals>.<lambda>", "_repeat"):
+            and qual not in ("_read_stack_chunk", "qr", "_repeat"):
         # unify_chunks asked for a rechunk of a zero-size operand, which `_rechunk_plan` skips: blocks stay misaligned
         geo = [chunks_of(p) for p in cfg.reads_map.values()]
         if any(0 in shp for _, shp in geo) and len(geo) >= 2:
@@ -981,18 +983,6 @@ def classify(build, config, phase, e, params=None):
             ch, shp = chunks_of(p)
             if len(shp) == 2 and min(ch[0]) < shp[1]:
                 return "qr-short-row-chunk"
-    if qual == "_store_array.<locals>.<lambda>" and shape_err:
-        src = next(iter(cfg.reads_map.values()))
-        tgt = next(iter(cfg.writes_map.values()))
-        sch, _ = chunks_of(src)
-        tch = tuple(tgt.array.chunks)
-        stepped = params.get("step") not in (None, 1)
-        whole = params.get("whole_array", False)
-        if whole:
-            if tuple(src.array.shape) != tuple(tgt.array.shape):
-                return "store-shape-unchecked"
-        elif stepped or tuple(max(c) for c in sch) != tuple(tch):
-            return "region-chunk-mismatch"
     if isinstance(e2, KeyError) and params.get("family") == "map_blocks_late_contraction":
         k = e2.args[0] if e2.args else None
         if isinstance(k, tuple) and params.get("first_has_contracted") is False and params.get("later_has_contracted") is True:
@@ -1092,8 +1082,7 @@ def stream_cases(rng):
     yield "stack", (lambda: xp.stack([arr(shape, c1), arr(shape, c2)], axis=ax)), {"op": "stack", "shape": shape, "chunks": [c1, c2], "axis": ax}, {}
     # region store
     p = gen_region(rng)
-    yield "region", (lambda p=p: build_region(p)[2]), dict(p, op="store-region"), \
-        {"step": p["step"], "whole_array": p["start"] is None and p["stop"] is None and p["step"] is None}
+    yield "region", (lambda p=p: build_region(p)[2]), dict(p, op="store-region"), {}
     # repeat incl. 0 and negative axis
     shape, ch = rand_geom(rng, hi=5)
     reps = rng.choice([0, 0, 1, 2, 3])
@@ -1171,6 +1160,53 @@ def oracle_legacy(ctx, n):
                    configs=["simple", "fuse_all"], execs=("single",))
 
 
+def oracle_regressions(ctx):
+    """Triggers of defects that were repaired by `fix:` commits in /repo: they must hold now (a recurrence is a violation)."""
+    import cubed.array_api as xp
+    import numpy as np
+    fixed = [
+        # fix d416aac: store into an existing array of another shape is refused up front
+        ("refused", "store-shape", dict(srcLen=17, srcChunk=2, tgtLen=16, tgtChunk=2, start=None, stop=None, step=None)),
+        ("refused", "store-shape", dict(srcLen=15, srcChunk=2, tgtLen=16, tgtChunk=2, start=None, stop=None, step=None)),
+        ("done", "store-rechunk", dict(srcLen=16, srcChunk=3, tgtLen=16, tgtChunk=2, start=None, stop=None, step=None)),
+        # fix ba97b91: region stores rechunk the source to the target chunks; stepped regions are refused
+        ("done", "region-chunks", dict(srcLen=4, srcChunk=2, tgtLen=12, tgtChunk=4, start=4, stop=8, step=None)),
+        ("done", "region-chunks", dict(srcLen=8, srcChunk=8, tgtLen=12, tgtChunk=4, start=4, stop=12, step=None)),
+        ("done", "region-chunks", dict(srcLen=8, srcChunk=3, tgtLen=12, tgtChunk=4, start=4, stop=None, step=1)),
+        ("refused", "region-step", dict(srcLen=4, srcChunk=4, tgtLen=12, tgtChunk=4, start=4, stop=12, step=2)),
+        ("refused", "region-align", dict(srcLen=4, srcChunk=4, tgtLen=12, tgtChunk=4, start=3, stop=7, step=None)),
+    ]
+    for want, label, p in fixed:
+        holder = {}
+
+        def build(p=p, holder=holder):
+            src, z, res = build_region(p)
+            holder["z"] = z
+            return res
+        for cname in ("default", "off"):
+            phase, e = run_phases(build, optimizers()[cname])
+            got = "done" if e is None else ("refused" if verdict(phase, e) is None else "failed")
+            ctx.count({"regression": label, "case": p, "config": cname}, nontrivial=True, kind="oracle:regression:%s:%s" % (label, got))
+            if got != want:
+                ctx.fail("repaired defect is back (%s): expected %s, got %s %s" % (label, want, got, "" if e is None else "%s during %s: %s" % (type(e).__name__, phase, str(e)[:100])),
+                         dict(case=dict(p, op="store"), config=cname, phase=phase, exception=None if e is None else type(e).__name__))
+            elif want == "done":
+                lo, hi, _ = slice(p["start"], p["stop"], p["step"]).indices(p["tgtLen"])
+                exp = np.full(p["tgtLen"], -1, dtype="int64")
+                exp[lo:hi] = np.arange(p["srcLen"]) + 100
+                if not np.array_equal(holder["z"][:], exp):
+                    ctx.fail("repaired store (%s) completes but writes %s, expected %s" % (label, holder["z"][:].tolist(), exp.tolist()),
+                             dict(case=dict(p, op="store"), config=cname))
+    # fix 2fe4874: negative-step slice after an integer index
+    a = np.arange(24).reshape(2, 3, 4)
+    for key in [(0, slice(None, None, -1), slice(None)), (0, slice(None), slice(None, None, -1)), (slice(None), 0, slice(None, None, -1))]:
+        build = lambda key=key: xp.asarray(a, chunks=(1, 2, 2), spec=spec())[key]  # noqa: E731
+        phase, e = run_phases(build, optimizers()["default"])
+        ctx.count({"regression": "index-flip", "key": str(key)}, nontrivial=True, kind="oracle:regression:index-flip:%s" % ("done" if e is None else "failed"))
+        if e is not None:
+            ctx.fail("repaired defect is back (index flip axis): %s during %s" % (type(e).__name__, phase), {"case": {"op": "index", "key": str(key)}})
+
+
 def oracle(ctx):
     import common
     common.use_repo()
@@ -1188,6 +1224,7 @@ def oracle(ctx):
         exprgen_case(ctx, prog, configs, execs)
     oracle_streams(ctx, ctx.budget(14, 100))
     oracle_legacy(ctx, ctx.budget(12, 60))
+    oracle_regressions(ctx)
 
 
 def search(ctx):
